@@ -1193,7 +1193,7 @@ def run(ctx):
     lpacks = []
     for mode in ("min", "full"):
         sel = [c for c in lcases if c[1] == mode]
-        lpacks += [sel[i : i + PACK] for i in range(0, len(sel), PACK)]
+        lpacks += [sel[i : i + 2 * PACK] for i in range(0, len(sel), 2 * PACK)]
     ncases, kn, pool = names_cases(ctx.tier)
     mcases, mnames = mangle_cases(ctx.tier)
     scases, ks = struct_cases(ctx.tier)
